@@ -329,7 +329,11 @@ fn gen_hist(rng: &mut Rng) -> Hist {
     let mut pool = Vec::new();
     let mut feats = Vec::new();
     let mut n = 0usize;
+    // half of the pools restart the name counter for every source: different sources then define
+    // functions and globals of the same names with different bodies (state keyed by name must not leak)
+    let shared_names = rng.chance(1, 2);
     for _ in 0..npool {
+        if shared_names { n = 0; }
         let mut g = Gen { rng, n, print: kind == PKind::Stdlib, nostr: outside };
         let (s, f) = if g.rng.chance(1, 6) { g.broken() } else { g.program() };
         n = g.n;
